@@ -394,8 +394,22 @@ def gen_batch(rng, count=60):
         bsrc = rng.choice([-1, -1, 1, 2, 3, 3, 0])
         devs = [src(rng.choice([1, 2, 3]), rng.choice([4, 6, 9, -1]), pval=rng.choice([0, 1, 2]), bsrc=bsrc)]
         devs[0]['bmix'] = bsrc > 0 and rng.random() < 0.4
-        shape = rng.choice(['b', 'bb', 'buf-b', 'b-buf-b', 'b-proc-b', 'buf-b-buf', 'b-jun-slow', 'b-jun-slow', 'buf', 'buf'])
+        shape = rng.choice(['b', 'bb', 'buf-b', 'b-buf-b', 'b-proc-b', 'buf-b-buf', 'b-jun-slow', 'b-jun-slow', 'buf', 'buf', 'mixbuf'])
         biggest = max(bsrc, 1)
+        if shape == 'mixbuf':       # batches and single parts pile up in a buffer behind a blocked consumer
+            devs[0] = src(rng.choice([1, 1, 2]), rng.choice([6, 9, -1]), pval=1, bsrc=rng.choice([2, 3]))
+            devs[0]['bmix'] = True
+            devs.append(dev('buffer', [1], cap=rng.choice([8, 12, -1]), delay=rng.choice([0, 0, 1])))
+            devs.append(dev(rng.choice(['sink', 'buffer', 'batcher']), [2], cyc=0, cap=-1, delay=0, bsize=0))
+            if devs[-1]['kind'] != 'sink':
+                devs.append(dev('sink', [3], cyc=0))
+            t = rng.choice([1, 2, 3])
+            cfg = norm(dict(devs=devs, script=[dict(t=t, call='block', dev=3), dict(t=t + rng.choice([4, 6, 8]), call='unblock', dev=3)],
+                            horizon=rng.choice([16, 24])))
+            if is_well_posed(cfg):
+                cfg['family'] = 'batch'
+                out.append(cfg)
+            continue
         for tok in shape.split('-'):
             up = [len(devs)]
             if tok in ('b', 'bb'):
